@@ -10,7 +10,7 @@ prop(
     needs_bin=True,
     stages=[
         dict(run="^TestPropRemoval$",
-             quick=dict(checks=1600, shards=16, timeout=1800, shrinktime="15s"),
+             quick=dict(checks=960, shards=16, timeout=1800, shrinktime="15s"),
              thorough=dict(checks=32000, shards=16, timeout=10800, shrinktime="60s")),
     ],
     rule="a history = 1-2 commits on main with 1-4 files x 1-4 rules whose kind is random and whose names come from one 5-name "
